@@ -342,14 +342,7 @@ func C06(p *engine.Prog, r *engine.Report) {
 					r.Und("C06-R4", "processTxs|loop", p.InstrPos(ac), "tx loop not found")
 					continue
 				}
-				ok := true
-				for _, pr := range hdr.Preds {
-					if hdr.Dominates(pr) { // back edge
-						if !engine.OnlyThroughPass(f, pr, vg) || !engine.OnlyThroughPass(f, pr, ag) {
-							ok = false
-						}
-					}
-				}
+				ok := backEdgesGuarded(f, hdr, vg) && backEdgesGuarded(f, hdr, ag)
 				r.Check(ok, "C06-R4", "processTxs|iteration completes only via ValidateTx==nil && applyTxOnState==nil", p.InstrPos(ac), "all back edges guarded", "a loop iteration can complete without both checks passing")
 			}
 		} else {
